@@ -13,7 +13,7 @@
 (*       "t" tuple (s), "l" list (s), "d" dict (keys ks, values s), "err"  *)
 (* A PROGRAM P is a record                                                 *)
 (*   params : sequence of [has, v]          (default value if has)         *)
-(*   sites  : sequence of [kind, fn, args, kw, active, unpack, sub]        *)
+(*   sites  : sequence of [kind, fn, args, kw, active, unpack, sub, setup] *)
 (*            kind "call" (fn names a function), "sub" (nested DAG sub)    *)
 (*   ret    : [shape, refs, keys]  shape single / tuple / list / dict /    *)
 (*            none                                                         *)
